@@ -59,6 +59,7 @@ type Contract struct {
 	Ghosts    []AtClause
 	At        map[string][]AtClause
 	Callsites []CallsiteClause
+	Stable    []string // heap fields (Type.field) assumed not to be written by any callee of this function
 	RawSMT    []string
 	Replay    string
 	File      string
@@ -110,7 +111,7 @@ func qualify(pkgPath, key string) string {
 		i := strings.Index(key, ")")
 		recv := key[1:i]
 		rest := key[i+1:]
-		if strings.Contains(recv, ".") {
+		if strings.Contains(recv, ".") || recv == "error" {
 			return key
 		}
 		if strings.HasPrefix(recv, "*") {
@@ -252,6 +253,9 @@ func (cs *ContractSet) loadFile(path, pkgPath string) error {
 				cur.Pure = true
 			case "safe":
 				cur.Safe = true
+			case "stable":
+				cur.Stable = append(cur.Stable, strings.Fields(rest)...)
+				cs.Assumes = append(cs.Assumes, fmt.Sprintf("%s: stable %s (no callee writes these fields)", cur.Key, rest))
 			case "gosafe":
 				cur.GoSafe = true
 			case "uses":
